@@ -78,11 +78,22 @@ def close(a, b, rel=REL, ab=ABS):
 
 def gen_case(rng, k, nlev):
     shape = H.K_SHAPES[k % len(H.K_SHAPES)]
-    zk = H.gen_knots(rng)
+    zk = H.gen_knots(rng, rng.choice([5, 6, 8]) if shape == 'spiky' else None)
+    if shape == 'spiky' and len(zk) >= 4:
+        # pairs of knots about a millimetre apart inside a range of a few hundred
+        zk = sorted(zk)
+        for i in range(1, len(zk) - 1, 2):
+            zk[i] = round(zk[i + 1] - rng.choice([0.942, 1.092, 1.5, 0.5]), 3) if zk[i + 1] - zk[i - 1] > 3 else zk[i]
+        assert all(b > a for a, b in zip(zk, zk[1:])), zk
     K = H.gen_conductivities(rng, len(zk), shape)
     Tmin = H.round_sig(H.loguniform(rng, 1e-4, 1e5), rng.choice([2, 4]))
     z0, zn = zk[0], zk[-1]
     levels = H.levels_for(rng, zk, nlev)
+    if shape == 'spiky':
+        # shortly past each narrow segment, and an even scan: where an integrator that steps over a peak is wrong
+        extra = [round(zk[i + 1] + d, 3) for i in range(1, len(zk) - 1, 2) for d in (0.12, 1.0, 3.0)]
+        extra += [round(z0 + (zn - z0) * j / 13.0, 3) for j in range(1, 13)]
+        levels = sorted(set(levels + [z for z in extra if z0 < z < zn]))
     above = [math.nextafter(zn, math.inf), zn + 1e-3 * (zn - z0), zn + 0.02 * (zn - z0), zn + 0.7 * (zn - z0) + 1.0]
     rng.shuffle(above)
     return dict(cls=shape, zk=zk, K=K, Tmin=Tmin, levels=levels, above=above[:2],
@@ -94,6 +105,14 @@ SHIPPED = dict(cls='shipped', zk=[-291.7, -5.167, 168.3, 1000.0], K=[5.356e-3, 1
                levels=[-350.0, -291.7, -288.88888888888886, -166.66666666666666, -5.167, 16.666666666666657,
                        138.88888888888889, 168.3, 200.0, 999.0, 1000.0],
                above=[1000.0000000000001, 1001.0, 1005.0], form='float')
+
+
+# Witness of the defect repaired by /repo 2f87964 (quad stepped over the narrow conductivity peak at -102.9..-101.9:
+# 0.48 % off at -102.83): kept as a fixed case so that the defect is reported again if it ever returns.
+SPIKY_WITNESS = dict(cls='spiky-witness', zk=[-219.833, -218.891, -102.954, -101.862, -42.072],
+                     K=[1404.21, 0.003746, 560.6, 0.0261, 942.34], Tmin=73.0,
+                     levels=[-219.0, -150.0, -102.954, -102.834, -102.5, -101.862, -101.0, -90.0, -61.0, -42.072],
+                     above=[-42.0], form='float')
 
 
 def malformed_cases(rng, count):
@@ -298,7 +317,8 @@ def run(ctx, out):
     seed, tier = ctx['seed'], ctx['tier']
     rng = C.rng_for(seed, PROP)
     nsets, nlev = (14, 7) if tier == 'quick' else (110, 9)
-    cases = [SHIPPED] + [gen_case(rng, k, nlev) for k in range(nsets)]
+    cases = [SHIPPED, SPIKY_WITNESS] + [gen_case(rng, k, nlev) for k in range(nsets)]
+    cases += [gen_case(rng, H.K_SHAPES.index('spiky'), nlev) for _ in range(3 if tier == 'quick' else 12)]
     check_cases(cases, out, 'fl')
     check_malformed(malformed_cases(rng, 12 if tier == 'quick' else 60), out, 'malformed')
     check_history(C.rng_for(seed, PROP, 'history'), 40 if tier == 'quick' else 300, out)
